@@ -46,6 +46,7 @@ void h_unmarshal_fiber(void) {
    * at the top frame's pc and steps to the next instruction (run_vm entry) - both must stay inside the frame / the bytecode.
    * Bytecode verification does not give this for an arbitrary pc (shape-0 instructions accept any operand bits).
    * Stated over the integers the image supplied (ghosts), so that no symbolic-offset read of the stack block is needed. */
+#ifndef MF_NOPC
   if (g_nat[0] > 0) {                       /* frame > 0: there is a top frame; it is the first one read */
     int32_t fflags = g_int[0], pcd = g_nat[5];
     JanetFiberStatus fs = (JanetFiberStatus)((fflags & JANET_FIBER_STATUS_MASK) >> JANET_FIBER_STATUS_OFFSET);
@@ -59,5 +60,12 @@ void h_unmarshal_fiber(void) {
       REACH("fiber image: resumable fiber with a function frame");
     }
   }
+  /* the frame without a previous frame is the fiber's first frame: a return from it must leave the interpreter (ENTRANCE),
+   * otherwise run_vm pops it and continues in a frame that does not exist (stated for the top frame via the ghosts) */
+  if (g_nat[0] > 0 && g_nat[4] == 0) {
+    __CPROVER_assert(g_int[1] & JANET_STACKFRAME_ENTRANCE, "C10 fiber image: the first frame of a fiber is an entrance frame (returning from it ends the fiber)");
+    REACH("fiber image: single frame");
+  }
+#endif
   REACH("unmarshal_one_fiber accepts an image");
 }
